@@ -61,6 +61,33 @@ def _ops():
 OPS = _ops()
 
 
+_PRISTINE = None
+
+
+def pristine_defaults():
+    """the package defaults as they are when the module is first imported
+    (captured once, before any operation has run in this process tree)"""
+    global _PRISTINE
+    if _PRISTINE is None:
+        from evo.tools.settings_template import DEFAULT_SETTINGS_DICT
+        _PRISTINE = copy.deepcopy(DEFAULT_SETTINGS_DICT)
+    return _PRISTINE
+
+
+pristine_defaults()
+
+
+def defaults_polluted():
+    """True (and repaired) if an operation modified the module-level
+    defaults - every later reset in the same process would then be wrong"""
+    from evo.tools.settings_template import DEFAULT_SETTINGS_DICT
+    if DEFAULT_SETTINGS_DICT != _PRISTINE:
+        DEFAULT_SETTINGS_DICT.clear()
+        DEFAULT_SETTINGS_DICT.update(copy.deepcopy(_PRISTINE))
+        return True
+    return False
+
+
 class SState(object):
     def __init__(self, d):
         self.d = d
@@ -91,8 +118,7 @@ class SettingsMachine(object):
             self.other = os.path.join(self.dir, "other.json")
 
     def defaults(self):
-        from evo.tools.settings_template import DEFAULT_SETTINGS_DICT
-        return copy.deepcopy(DEFAULT_SETTINGS_DICT)
+        return copy.deepcopy(pristine_defaults())
 
     def initial(self, i):
         d = self.defaults()
@@ -176,8 +202,13 @@ class SettingsMachine(object):
             return st, [], name + "/raised:" + type(e).__name__
         after = self._read()
         st.d = after
+        polluted = defaults_polluted()
         if not check:
             return st, [], name
+        if polluted:
+            msgs.append("%s modified the package's default settings in "
+                        "memory (a later reset in the same process restores "
+                        "wrong values)" % self.describe(op))
         # ---- invariants from the property
         if set(after) != set(before) and name != "upgrade":
             msgs.append("key set changed: +%s -%s" %
@@ -563,7 +594,8 @@ def run(ctx):
 
 def replay(part, case):
     if part == "history":
-        return hist.replay_history(FACTORY, case["init"], case["ops"])
+        return hist.replay_history(case.get("factory", FACTORY), case["init"],
+                               case["ops"])
     if part == "generate":
         from mc.checks import c15
         wd = tempfile.mkdtemp(dir=os.getcwd(), prefix="c18r_")
